@@ -242,6 +242,33 @@ Theorem C16_mutation_refresh : forall g pre qs,
 Proof. exact msession_refresh. Qed.
 Print Assumptions C16_mutation_refresh.
 
+(* ------------------------------------------------------------------ stored coordinates (db_grid_define_coordinates) *)
+(* db_grid_define_coordinates rewrites the X columns of a grid data base from its geometry: the row written for sample r
+   (an odometer runs over the indices) is getCoordinatesByIndice of the indices of rank r ... *)
+Theorem C16_define_coordinates : forall g r, allpos (g_nx g) -> (0 <= r < prodZ (g_nx g))%Z ->
+  nth (Z.to_nat r) (define_coordinates g) [] = coords_by_indice g (rankToIndice (g_nx g) r false) true [] [].
+Proof. exact define_coordinates_nth. Qed.
+Print Assumptions C16_define_coordinates.
+(* ... that is the coordinates getCoordinate / rankToCoordinates / indicesToCoordinate report for that node
+   (any dimension, origin, mesh, rotation) ... *)
+Theorem C16_define_coordinates_node : forall n g r, wfgrid n g -> (0 <= r < prodZ (g_nx g))%Z ->
+  eqlQ (nth (Z.to_nat r) (define_coordinates g) []) (rankToCoordinates g r []).
+Proof. exact define_coordinates_node. Qed.
+Print Assumptions C16_define_coordinates_node.
+(* ... so the stored location of a sample is located back in the cell of that sample (with C16_idx_coord) *)
+Theorem C16_define_coordinates_roundtrip : forall n g r centered eps, wfgrid n g -> (0 <= r < prodZ (g_nx g))%Z ->
+  - half_if centered <= eps -> eps < 1 - half_if centered ->
+  snd (c2i g (nth (Z.to_nat r) (define_coordinates g) []) centered eps) = rankToIndice (g_nx g) r false.
+Proof. exact define_coordinates_roundtrip. Qed.
+Print Assumptions C16_define_coordinates_roundtrip.
+Example C16_nonvacuous_define :
+  length (define_coordinates g_rot90) = 12%nat /\
+  eqlQ_b (nth 5 (define_coordinates g_rot90) []) [9; 22] = true /\           (* x0 + R (i dx) = (10,20) + R(2,1), not R (x0 + i dx) *)
+  eqlQ_b (nth 5 (define_coordinates g_rot90) []) (rankToCoordinates g_rot90 5 []) = true /\
+  eqlQ_b (nth 11 (define_coordinates g_rot90) []) (node g_rot90 [3%Z; 2%Z]) = true /\
+  forallb (fun r => eqlQ_b (nth (Z.to_nat r) (define_coordinates g_rot90) []) (rankToCoordinates g_rot90 r [])) (all_ranks g_rot90) = true.
+Proof. vm_compute. repeat split; reflexivity. Qed.
+
 (* ------------------------------------------------------------------ migration bookkeeping (CalcMigrate) *)
 (* a located sample is active, its rank is that of the cell whose inequalities it satisfies (in the convention
    `centered' of the call site) and that cell is inside the grid *)
